@@ -1479,11 +1479,24 @@ struct array : static_array<T, D, Alloc> {
 			),
 			extensions
 		);
-		if constexpr(!(std::is_trivially_default_constructible_v<typename array::element_type> || multi::force_element_trivial_default_construction<typename array::element_type>)) {
-			adl_alloc_uninitialized_value_construct_n(this->alloc(), tmp.data_elements(), tmp.num_elements());
+		auto const release_tmp = [&] {
+			if(tmp.num_elements() != 0) { multi::allocator_traits<typename array::allocator_type>::deallocate(this->alloc(), tmp.data_elements(), static_cast<typename multi::allocator_traits<typename array::allocator_type>::size_type>(tmp.num_elements())); }
+		};
+		try {
+			if constexpr(!(std::is_trivially_default_constructible_v<typename array::element_type> || multi::force_element_trivial_default_construction<typename array::element_type>)) {
+				adl_alloc_uninitialized_value_construct_n(this->alloc(), tmp.data_elements(), tmp.num_elements());
+			}
+		} catch(...) { release_tmp(); throw; }  // the construction rolled itself back: only the block is outstanding
+		try {
+			auto const is = intersection(this->extensions(), extensions);
+			if(is.num_elements() != 0) { tmp.apply(is) = this->apply(is); }  // TODO(correaa) : use (and implement) `.move();`
+		} catch(...) {
+			if constexpr(!(std::is_trivially_destructible_v<typename array::element_type> || multi::force_element_trivial_destruction<typename array::element_type>)) {
+				this->static_::array_alloc::destroy_n(tmp.data_elements(), tmp.num_elements());
+			}
+			release_tmp();
+			throw;
 		}
-		auto const is = intersection(this->extensions(), extensions);
-		if(is.num_elements() != 0) { tmp.apply(is) = this->apply(is); }  // TODO(correaa) : use (and implement) `.move();`
 		this->destroy();
 		this->deallocate();
 		this->base_            = tmp.base();
@@ -1512,9 +1525,22 @@ struct array : static_array<T, D, Alloc> {
 			),
 			exs
 		);
-		this->uninitialized_fill_n(tmp.data_elements(), static_cast<typename multi::allocator_traits<typename array::allocator_type>::size_type>(tmp.num_elements()), elem);
-		auto const is = intersection(this->extensions(), exs);
-		if(is.num_elements() != 0) { tmp.apply(is) = this->apply(is); }
+		auto const release_tmp = [&] {
+			if(tmp.num_elements() != 0) { multi::allocator_traits<typename array::allocator_type>::deallocate(this->alloc(), tmp.data_elements(), static_cast<typename multi::allocator_traits<typename array::allocator_type>::size_type>(tmp.num_elements())); }
+		};
+		try {
+			this->uninitialized_fill_n(tmp.data_elements(), static_cast<typename multi::allocator_traits<typename array::allocator_type>::size_type>(tmp.num_elements()), elem);
+		} catch(...) { release_tmp(); throw; }  // the fill rolled itself back: only the block is outstanding
+		try {
+			auto const is = intersection(this->extensions(), exs);
+			if(is.num_elements() != 0) { tmp.apply(is) = this->apply(is); }
+		} catch(...) {
+			if constexpr(!(std::is_trivially_destructible_v<typename array::element_type> || multi::force_element_trivial_destruction<typename array::element_type>)) {
+				this->static_::array_alloc::destroy_n(tmp.data_elements(), tmp.num_elements());
+			}
+			release_tmp();
+			throw;
+		}
 		this->destroy();
 		this->deallocate();
 		this->base_            = tmp.base();  // TODO(correaa) : use (and implement) `.move();`
